@@ -358,6 +358,83 @@ type alignFn struct {
 	blocks  *Sym // first argument of the trace call
 	idx     *Sym // index expression i used for the decideOnStep store
 	zeroGO  bool
+	local   *ssa.Alloc // the cell of the current iteration kept in a local variable, if the fill is written that way
+	flush   *ssa.Store // … and the store that writes it into the table
+}
+
+// localCellFlush: al is a struct variable of the loop body that is written into one element of a slice as a whole,
+// by one store that every path from a store into al to the next iteration (or to a return) passes; that store.
+func localCellFlush(f *ssa.Function, al *ssa.Alloc) *ssa.Store {
+	if al.Block() == f.Blocks[0] {
+		return nil // declared outside the loop: fields left alone keep the previous iteration's values
+	}
+	var flush *ssa.Store
+	n := 0
+	var writes []*ssa.Store
+	for _, ref := range *al.Referrers() {
+		switch x := ref.(type) {
+		case *ssa.UnOp:
+			for _, r2 := range *x.Referrers() {
+				if st, ok := r2.(*ssa.Store); ok && st.Val == ssa.Value(x) {
+					if _, isIdx := st.Addr.(*ssa.IndexAddr); isIdx {
+						flush = st
+						n++
+					}
+				}
+			}
+		case *ssa.Store:
+			if x.Addr == ssa.Value(al) {
+				writes = append(writes, x)
+			}
+		case *ssa.FieldAddr:
+			for _, r2 := range *x.Referrers() {
+				if st, ok := r2.(*ssa.Store); ok && st.Addr == ssa.Value(x) {
+					writes = append(writes, st)
+				}
+			}
+		case *ssa.DebugRef:
+		default:
+			return nil // its address goes elsewhere
+		}
+	}
+	if n != 1 || flush == nil {
+		return nil
+	}
+	for _, w := range writes {
+		if w.Block() == flush.Block() {
+			if instrDominates(w, flush) {
+				continue
+			}
+			return nil
+		}
+		seen := map[*ssa.BasicBlock]bool{}
+		lost := false
+		var dfs func(b *ssa.BasicBlock)
+		dfs = func(b *ssa.BasicBlock) {
+			if seen[b] || lost || b == flush.Block() {
+				return
+			}
+			seen[b] = true
+			if b == al.Block() {
+				lost = true
+				return
+			}
+			if _, isRet := lastInstr(b).(*ssa.Return); isRet {
+				lost = true
+				return
+			}
+			for _, su := range b.Succs {
+				dfs(su)
+			}
+		}
+		for _, su := range w.Block().Succs {
+			dfs(su)
+		}
+		if lost {
+			return nil
+		}
+	}
+	return flush
 }
 
 // dropGapOpen rewrites a tree with Get(Gap,Gap) := 0, x+0 := x, ITE(c,x,x) := x.
@@ -498,6 +575,22 @@ func loadAlign(c *Ctx, r *Report, name, traceName string) *alignFn {
 		}
 	}
 	if a.idx == nil {
+		// the cell computed in a local variable of the iteration and stored whole at its end:
+		// var cur block; …; cur = decideOnStep(…); blocks[i] = cur
+		for _, ref := range *a.decide.Referrers() {
+			st, ok := ref.(*ssa.Store)
+			if !ok || st.Val != ssa.Value(a.decide) {
+				continue
+			}
+			if al, ok := st.Addr.(*ssa.Alloc); ok {
+				if flush := localCellFlush(f, al); flush != nil {
+					a.local, a.flush = al, flush
+					a.idx = a.s.expr(flush.Addr.(*ssa.IndexAddr).Index)
+				}
+			}
+		}
+	}
+	if a.idx == nil {
 		r.undecided("SIB", where, "anchor", "", "decideOnStep's result is not stored into blocks[i]")
 		return nil
 	}
@@ -507,7 +600,12 @@ func loadAlign(c *Ctx, r *Report, name, traceName string) *alignFn {
 
 // repl: readable names for the recurring leaves.
 func (a *alignFn) repl() map[string]string {
-	return map[string]string{a.idx.String(): "i", a.bn.String(): "bn", a.blocks.String(): "blocks"}
+	m := map[string]string{a.idx.String(): "i", a.bn.String(): "bn", a.blocks.String(): "blocks"}
+	if a.local != nil {
+		// the current cell kept in a local variable reads as the cell itself
+		m[a.s.expr(a.local).String()] = "blocks[i]"
+	}
+	return m
 }
 
 // getClass classifies a Get call by its argument shapes.
@@ -572,8 +670,15 @@ func (a *alignFn) cellStores(c *Ctx) []string {
 			idx, field = ad.Args[1], "*"
 		case ad.Op == "field" && len(ad.Args) == 1 && ad.Args[0].Op == "index" && len(ad.Args[0].Args) == 2 && ad.Args[0].Args[0].String() == a.blocks.String():
 			idx, field = ad.Args[0].Args[1], ad.Leaf
+		case a.local != nil && ad.Op == "alloc" && ad.Val == ssa.Value(a.local):
+			idx, field = a.idx, "*"
+		case a.local != nil && ad.Op == "field" && len(ad.Args) == 1 && ad.Args[0].Op == "alloc" && ad.Args[0].Val == ssa.Value(a.local):
+			idx, field = a.idx, ad.Leaf
 		default:
 			continue
+		}
+		if a.flush != nil && st == a.flush {
+			continue // the local cell written into the table: its stores have been counted as stores into the cell
 		}
 		val := ss.val
 		if a.zeroGO {
@@ -1137,7 +1242,8 @@ func (a *alignFn) edgeRule(c *Ctx, r *Report) {
 	var order []any
 	for _, ss := range symStoresOf(a.f, a.s) {
 		ad := ss.addr
-		if ad.Op != "field" || len(ad.Args) != 1 || ad.Args[0].Op != "index" {
+		isLocalCell := a.local != nil && ad.Op == "field" && len(ad.Args) == 1 && ad.Args[0].Op == "alloc" && ad.Args[0].Val == ssa.Value(a.local)
+		if !isLocalCell && (ad.Op != "field" || len(ad.Args) != 1 || ad.Args[0].Op != "index") {
 			continue
 		}
 		var key any = ss.st.Block()
@@ -1508,6 +1614,7 @@ func rulesLocalClamp(c *Ctx, r *Report) {
 		return "", false
 	}
 	clampTest := map[*ssa.BasicBlock]bool{}
+	clampArm := map[*ssa.BasicBlock]bool{} // the blocks that zero the cell on the true edge of a clamp test
 	for _, b := range a.f.Blocks {
 		iff, ok := b.Instrs[len(b.Instrs)-1].(*ssa.If)
 		if !ok {
@@ -1520,8 +1627,15 @@ func rulesLocalClamp(c *Ctx, r *Report) {
 		}
 		// true edge must zero the cell
 		zeroes := false
+		zeroedField := map[string]bool{}
 		for _, in := range b.Succs[0].Instrs {
 			if st, ok := in.(*ssa.Store); ok {
+				// the literal built in place: both fields of the cell set to zero
+				if f, ok := isCellAddr(st.Addr); ok && (f == "f0" || f == "f1") {
+					if k, isC := st.Val.(*ssa.Const); isC && isZeroConst(k) {
+						zeroedField[f] = true
+					}
+				}
 				if f, ok := isCellAddr(st.Addr); ok && f == "*" {
 					v := a.s.expr(st.Val)
 					if v.Op == "load" && v.Args[0].Op == "alloc" && compositeConsts(v.Args[0].Val) == "{f0:0,f1:0}" {
@@ -1530,8 +1644,9 @@ func rulesLocalClamp(c *Ctx, r *Report) {
 				}
 			}
 		}
-		if zeroes {
+		if zeroes || (zeroedField["f0"] && zeroedField["f1"]) {
 			clampTest[b] = true
+			clampArm[b.Succs[0]] = true
 		}
 	}
 	// the clamp as a helper: f(&blocks[i]) whose body is `if p.score < 0 { *p = block{0, 0} }` and nothing else
@@ -1629,6 +1744,9 @@ func rulesLocalClamp(c *Ctx, r *Report) {
 			v := a.s.expr(st.Val)
 			if v.Op == "load" && v.Args[0].Op == "alloc" && compositeConsts(v.Args[0].Val) == "{f0:0,f1:0}" {
 				continue // the clamp itself
+			}
+			if k, isC := st.Val.(*ssa.Const); isC && isZeroConst(k) && clampArm[b] {
+				continue // the clamp itself, written field by field
 			}
 			n++
 			escaped := false
